@@ -226,6 +226,22 @@ Theorem nested_build_eq :
 Proof. exact nested_build_eq_l. Qed.
 Print Assumptions nested_build_eq.
 
+(* conversely: if building from the JSON document succeeds, explicit construction
+   succeeds as well, with the same object *)
+Theorem nested_build_conv :
+  forall r F g fam v,
+    wf_cfg r fam g -> from_arg r F fam (to_json g) = Ok v ->
+    exists f, explicit r f g = Ok v.
+Proof. exact nested_build_conv_l. Qed.
+Print Assumptions nested_build_conv.
+
+Theorem nested_build_iff :
+  forall r g fam v,
+    wf_cfg r fam g ->
+    ((exists F, from_arg r F fam (to_json g) = Ok v) <-> (exists f, explicit r f g = Ok v)).
+Proof. exact nested_build_iff_l. Qed.
+Print Assumptions nested_build_iff.
+
 (* ---- the mapping that is passed in is never modified (HeapModel.v: mutable,
         shareable objects passed by reference; any heap, any registry) ---- *)
 
